@@ -395,6 +395,11 @@ const LITERALS: &[&str] = &[
     "t#5ms", "LT#14.7s", "D#2024-01-15", "DATE#2024-01-15", "TOD#14:30:00", "LTOD#15:36:55.36", "DT#2024-01-15-14:30:00",
     "TRUE", "FALSE", "INT#5", "REAL#1.5", "BOOL#1", "INT#-3", "UINT#16#FF", "%IX0.0", "%QW10", "%MD100", "NULL",
 ];
+/// based and typed literals taken apart at the `#` (each piece is a clean token of its own)
+const SPACED_TYPED: &[&str] = &[
+    "16 # FF", "2 # 1010", "16# FF", "16 #FF", "8 # 77", "INT # 5", "INT# 5", "INT #5", "REAL # 1.5", "BOOL # 1", "T# 5s",
+    "T # 5s", "UINT # 16 # FF", "D # 2024",
+];
 const BINOPS: &[&str] = &["+", "-", "*", "/", "**", "=", "<>", "<", "<=", ">", ">=", "AND", "OR", "XOR", "MOD", "&"];
 const LINE_COMMENTS: &[&str] = &[
     "// level := 0;", "// gain => high, x := 1", "// see http://plc.local/api",
@@ -421,6 +426,9 @@ pub struct TextGen<'a> {
     typed_literals: bool,
     /// runs of 3-6 blank lines (a formatter that squeezes them must keep range / on-type edits aligned)
     blank_runs: bool,
+    /// Siemens-SCL style `#name` references: a `Hash` token directly behind keywords, operators, brackets
+    /// (`IF #run AND NOT #stop THEN`) - `#` is glued to both neighbours by the formatter
+    hash_refs: bool,
     pub tags: BTreeSet<&'static str>,
 }
 
@@ -430,7 +438,19 @@ impl<'a> TextGen<'a> {
         let multiline_comments = r.chance(1, 5);
         let typed_literals = r.chance(1, 6);
         let blank_runs = r.chance(1, 3);
-        TextGen { r, lines: Vec::new(), sloppy, multiline_comments, typed_literals, blank_runs, tags: BTreeSet::new() }
+        let hash_refs = r.chance(1, 4);
+        TextGen { r, lines: Vec::new(), sloppy, multiline_comments, typed_literals, blank_runs, hash_refs, tags: BTreeSet::new() }
+    }
+
+    /// a variable reference: in flagged texts mostly written `#name`
+    fn var(&mut self) -> String {
+        let id = self.ident();
+        if self.hash_refs && self.r.chance(2, 3) {
+            self.tags.insert("hash-ref");
+            format!("#{id}")
+        } else {
+            id
+        }
     }
 
     fn ident(&mut self) -> String {
@@ -442,6 +462,12 @@ impl<'a> TextGen<'a> {
             self.tags.insert("string");
             self.r.pick(STRINGS).to_string()
         } else {
+            if self.typed_literals && self.r.chance(1, 4) {
+                // a based / typed literal written with blanks around `#`: gluing it back changes the tokens
+                self.tags.insert("typed-literal");
+                self.tags.insert("spaced-typed-literal");
+                return self.r.pick(SPACED_TYPED).to_string();
+            }
             let l = self.r.pick(LITERALS).to_string();
             // `INT#5` after a keyword is glued to it (recorded finding): only in flagged texts
             if !self.typed_literals && l.contains('#') && lex_classes(&l).len() > 1 {
@@ -458,11 +484,11 @@ impl<'a> TextGen<'a> {
     fn expr(&mut self, depth: u32) -> Vec<String> {
         let mut t = Vec::new();
         match if depth == 0 { self.r.below(4) } else { self.r.below(10) } {
-            0 | 1 => t.push(self.ident()),
+            0 | 1 => t.push(self.var()),
             2 => t.push(self.literal()),
             3 => {
                 // member / index / deref access
-                t.push(self.ident());
+                t.push(self.var());
                 match self.r.below(4) {
                     0 => {
                         t.push(".".into());
@@ -506,7 +532,7 @@ impl<'a> TextGen<'a> {
             }
             _ => {
                 // call, positional or named arguments
-                t.push(self.ident());
+                t.push(self.var());
                 t.push("(".into());
                 let n = self.r.below(5);
                 let named = self.r.bool();
@@ -826,7 +852,7 @@ impl<'a> TextGen<'a> {
             }
             3 => {
                 // call statement, sometimes long (wrapping candidates) or spread over lines
-                let mut toks = vec![self.ident(), "(".into()];
+                let mut toks = vec![self.var(), "(".into()];
                 let n = 1 + self.r.below(8);
                 let multi = self.r.chance(1, 6);
                 let mut first = true;
@@ -899,7 +925,7 @@ impl<'a> TextGen<'a> {
                 self.push(indent, "END_CASE".into());
             }
             6 => {
-                let mut t = vec!["FOR".to_string(), self.ident(), ":=".into()];
+                let mut t = vec!["FOR".to_string(), self.var(), ":=".into()];
                 t.extend(self.expr(0));
                 t.push("TO".into());
                 t.extend(self.expr(1));
@@ -1137,10 +1163,21 @@ impl<'a> TextGen<'a> {
         }
         if crlf {
             tags.push("crlf");
-            if self.r.chance(1, 6) {
+            if self.r.chance(1, 4) {
+                // mixed terminators: every CR LF becomes a bare LF with probability 1/3 (at least one does), so
+                // that bare LFs end all kinds of lines - code, blank, comment and verbatim-copied ones
                 tags.push("mixed-eol");
-                if let Some(k) = s.find("\r\n") {
-                    s.replace_range(k..k + 2, "\n");
+                let n = s.matches("\r\n").count() as u64;
+                if n > 0 {
+                    let forced = self.r.below(n);
+                    let mut out = String::with_capacity(s.len());
+                    for (k, piece) in s.split("\r\n").enumerate() {
+                        if k > 0 {
+                            out.push_str(if (k as u64 - 1) == forced || self.r.chance(1, 3) { "\n" } else { "\r\n" });
+                        }
+                        out.push_str(piece);
+                    }
+                    s = out;
                 }
             }
         }
@@ -1182,6 +1219,228 @@ pub fn gen_text(r: &mut Rng) -> (String, Vec<&'static str>) {
     let (text, mut tags) = g.finish();
     tags.insert(0, kind);
     (text, tags)
+}
+
+// ---------------------------------------------------------------------------------------------
+// Glue matrix: every left-hand token class x every punctuation / operator that `should_glue` knows,
+// swept deterministically over the cases `nw+1 ..= nw+gluecases` (independent of the seed; the seed picks
+// the representatives, the continuation, the frame around the pair and the white space of the source)
+// ---------------------------------------------------------------------------------------------
+
+/// left-hand tokens: every token class whose text ends in a word character, a quote, `#` or a closer
+pub const GLUE_LEFT: &[(&str, &[&str])] = &[
+    ("kw", &["IF", "NOT", "AND", "OR", "ELSIF", "RETURN", "MOD", "TO", "UNTIL", "WHILE", "INT", "TRUE", "XOR", "OF", "BY",
+             "THEN", "not", "End_If", "TIME", "DATE", "STRING", "ELSE", "DO", "CASE"]),
+    ("ident", &["run", "x", "E5", "FF", "s", "_1", "stop", "B", "ms", "a1", "T", "D", "e"]),
+    ("int", &["16", "2", "8", "0", "1_000", "42", "16#FF", "2#1010"]),
+    ("real", &["1.5", "2.5e-3", "1.0E10"]),
+    ("temporal-literal", &["T#5m", "TIME#-5s", "D#2024-01-15", "TOD#14:30:00", "DT#2024-01-15-14:30:00", "LTOD#15:36:55.36"]),
+    ("typed-prefix", &["INT#", "s#", "E5#", "BOOL#", "x#", "FF#"]),
+    ("temporal-prefix", &["T#", "D#", "TOD#", "DT#", "time#", "LT#"]),
+    ("address", &["%IX0", "%MD100", "%IX0.0", "%QW10", "%I*"]),
+    ("string", &["'a'", "\"w\"", "''", "'a#b'"]),
+    ("closer", &[")", "]", "^"]),
+];
+
+/// everything `should_glue` glues to a neighbour in every style ...
+pub const GLUE_PUNCT: &[&str] = &["#", ".", "..", "(", "[", "^", "@", ",", ";", ":", ")", "]"];
+/// ... and in compact style (`is_symbolic_operator`)
+pub const GLUE_OPS: &[&str] = &[":=", "=>", "?=", "=", "<>", "<", "<=", ">", ">=", "+", "-", "*", "/", "**", "&"];
+/// punctuation of the pairs where only the re-lex guard of `format_line_tokens` keeps the tokens apart
+const GLUE_HOT: &[&str] = &["#", ".", "..", "(", "+", "-", "*", "/", ":", "<", ">", "="];
+
+/// what follows the punctuation ("" = nothing)
+const GLUE_RIGHT: &[&str] = &[
+    "run", "stop", "FF", "E5", "s", "x", "_1", "e5", "5", "16", "1010", "0", "01", "THEN", "NOT", "TRUE", "INT", "#stop", "#x",
+    "1.5", "T#5m", "'a'", "INT#5", "16#FF", "-", "#", "(", "=", ">", "*", "/", ".", "",
+];
+
+pub const GLUE_SWEEP_LINES: u64 = 20;
+const GLUE_RANDOM_LINES: u64 = 8;
+
+pub fn glue_pairs() -> u64 {
+    (GLUE_LEFT.len() * (GLUE_PUNCT.len() + GLUE_OPS.len())) as u64
+}
+
+/// Source text of a token list: random white space (also none) between the pieces; when that changes how
+/// the line lexes, produces a token the lexer labels by its right context (known finding
+/// C15-lexer-context-dependent-token), an Error token or a comment / pragma, every piece is set apart by one
+/// blank; `None` when even that line has such a token (the line is left out, exactly for that reason).
+fn glue_render(r: &mut Rng, pieces: &[String]) -> Option<String> {
+    let clean = |line: &str| {
+        !has_irregular_token(line)
+            && !lex(line).iter().any(|t| {
+                matches!(t.kind, TokenKind::Error | TokenKind::LineComment | TokenKind::BlockComment | TokenKind::Pragma)
+            })
+    };
+    let want: Vec<(String, String)> = pieces.iter().flat_map(|p| lex_classes(p)).collect();
+    let sloppy = *r.pick(&[0u64, 30, 70]);
+    let mut line = String::new();
+    for (i, p) in pieces.iter().enumerate() {
+        if i > 0 {
+            line.push_str(if r.below(100) < sloppy { *r.pick(&["", "", "  ", "\t", " "]) } else { " " });
+        }
+        line.push_str(p);
+    }
+    if lex_classes(&line) == want && clean(&line) {
+        return Some(line);
+    }
+    let line = pieces.join(" ");
+    clean(&line).then_some(line)
+}
+
+/// One line around the pair (`left`, `punct`): `bare` lines hold no `(`, `.` or `..` besides the pair's own
+/// tokens, the others carry a call, a member access or a subrange next to it.
+fn glue_line(r: &mut Rng, left: &str, punct: &str, bare: bool) -> Vec<String> {
+    let v = |xs: &[&str]| xs.iter().map(|x| x.to_string()).collect::<Vec<String>>();
+    let mut core = vec![left.to_string(), punct.to_string()];
+    let right = *r.pick(GLUE_RIGHT);
+    if !right.is_empty() {
+        core.push(right.to_string());
+    }
+    if r.chance(1, 4) {
+        // a second pair with the same punctuation behind an operator keyword
+        core.extend(v(&[*r.pick(&["AND", "OR", "AND NOT", "XOR", "MOD", "+", ","])]));
+        let (_, reps) = r.pick(GLUE_LEFT);
+        core.push(r.pick(reps).to_string());
+        core.push(punct.to_string());
+        core.push(r.pick(&["stop", "FF", "5", "x", "#y"]).to_string());
+    }
+    let mut t = Vec::new();
+    match (bare, r.below(6)) {
+        (true, 0) | (true, 1) => t = core,
+        (true, 2) => {
+            t.push(r.pick(&["IF", "ELSIF", "WHILE", "UNTIL", "CASE"]).to_string());
+            t.extend(core);
+            t.push(r.pick(&["THEN", "DO", "OF", ""]).to_string());
+        }
+        (true, 3) => {
+            t.extend(v(&[*r.pick(IDENTS), *r.pick(&[":=", ":=", "?=", "=>"])]));
+            t.extend(core);
+            t.push(";".into());
+        }
+        (true, 4) => {
+            t.extend(v(&[*r.pick(&["RETURN", "NOT", "x ,", "1 +", "#a :=", "- ", "; "])]));
+            t.extend(core);
+        }
+        (true, _) => {
+            t.extend(core);
+            t.extend(v(&[*r.pick(&[";", ", y", ":= 1 ;", "THEN", "; #b := #c ;", ": INT ;"])]));
+        }
+        (false, 0) => {
+            t.extend(v(&["y", ":=", *r.pick(&["g", "#g", "NOT", "ABS"]), "("]));
+            t.extend(core);
+            t.extend(v(&[")", ";"]));
+        }
+        (false, 1) => {
+            t.extend(v(&["arr", "[", "0", "..", "1", "]", ":="]));
+            t.extend(core);
+            t.push(";".into());
+        }
+        (false, 2) => {
+            t.extend(core);
+            t.extend(v(&[";", "fb", ".", "q", ":=", "1", ";"]));
+        }
+        (false, 3) => {
+            t.extend(v(&["IF", "fb", ".", "q", "AND"]));
+            t.extend(core);
+            t.push("THEN".into());
+        }
+        (false, 4) => {
+            t.extend(v(&["f", "(", "a", ",", "b", ")", ";"]));
+            t.extend(core);
+        }
+        (false, _) => {
+            t.extend(core);
+            t.extend(v(&[":", "INT", "(", "0", "..", "10", ")", ";"]));
+        }
+    }
+    t.retain(|p| !p.is_empty());
+    t
+}
+
+/// Case `k` (0-based) of the glue matrix: block `k / 3` of the pair sweep in spacing option `k % 3` (default
+/// = spaced under a profile that does not choose compact; explicit spaced under every profile; compact, chosen
+/// explicitly or by the siemens profile).  Bare and non-bare lines alternate so that the two spaced cases of a
+/// block cover both for every pair.
+pub fn gen_glue_matrix(r: &mut Rng, k: u64, out: &mut Out) -> (Cfg, String) {
+    let (m, s) = (k / 3, k % 3);
+    let mut cfg = gen_cfg(r);
+    let prof = |i: u64| PROFILES[(i % PROFILES.len() as u64) as usize].map(|p| p.to_string());
+    match s {
+        0 => {
+            cfg.spacing = None;
+            cfg.profile = [None, Some("codesys"), Some("Mitsubishi "), Some("acme")][(m % 4) as usize].map(|p: &str| p.to_string());
+        }
+        1 => {
+            cfg.spacing = Some(r.pick(&["spaced", "spaced", "wide", "Spaced"]).to_string());
+            cfg.profile = prof(m);
+        }
+        _ if m % 2 == 0 => {
+            cfg.spacing = None;
+            cfg.profile = Some("siemens".into());
+        }
+        _ => {
+            cfg.spacing = Some(r.pick(&["compact", "tight", "Compact"]).to_string());
+            cfg.profile = prof(m / 2);
+        }
+    }
+    out.count(if s == 2 { "glue-matrix-compact" } else { "glue-matrix-spaced" });
+    let puncts: Vec<&str> = GLUE_PUNCT.iter().chain(GLUE_OPS.iter()).copied().collect();
+    let np = glue_pairs();
+    let mut lines: Vec<String> = Vec::new();
+    let emit = |r: &mut Rng, out: &mut Out, lines: &mut Vec<String>, class: &str, left: &str, punct: &str, bare: bool| {
+        let pieces = glue_line(r, left, punct, bare);
+        match glue_render(r, &pieces) {
+            Some(l) => {
+                out.count(&format!("glue-left-{class}"));
+                out.count(&format!("glue-punct-{}", lex_classes(punct).first().map(|c| c.0.clone()).unwrap_or_default()));
+                out.count(if bare { "glue-line-bare" } else { "glue-line-with-paren-or-dot" });
+                let lead = *r.pick(&["", "", "    ", "\t", "  "]);
+                lines.push(format!("{lead}{l}"));
+            }
+            None => out.count("glue-line-left-out-irregular-token"),
+        }
+    };
+    for j in 0..GLUE_SWEEP_LINES {
+        let p = (m * GLUE_SWEEP_LINES + j) % np;
+        let sweep = (m * GLUE_SWEEP_LINES + j) / np;
+        let (class, reps) = GLUE_LEFT[(p % GLUE_LEFT.len() as u64) as usize];
+        let punct = puncts[(p / GLUE_LEFT.len() as u64) as usize];
+        let left = *r.pick(reps);
+        let bare = (j + m + s + sweep) % 2 == 0;
+        emit(r, out, &mut lines, class, left, punct, bare);
+    }
+    for _ in 0..GLUE_RANDOM_LINES {
+        let (class, reps) = *r.pick(GLUE_LEFT);
+        let punct = if r.bool() { *r.pick(GLUE_HOT) } else { *r.pick(&puncts) };
+        let left = *r.pick(reps);
+        let bare = r.bool();
+        let at_random = r.bool();
+        emit(r, out, &mut lines, class, left, punct, bare);
+        if at_random && lines.len() > 1 {
+            let l = lines.pop().unwrap();
+            let at = r.below(lines.len() as u64) as usize;
+            lines.insert(at, l);
+        }
+    }
+    // sometimes inside a POU, a chunk of the lines sometimes inside a VAR block (colon alignment)
+    if r.chance(1, 4) && lines.len() > 4 {
+        let a = r.below(lines.len() as u64 - 3) as usize;
+        let b = a + 1 + r.below(3) as usize;
+        lines.insert(b, "END_VAR".into());
+        lines.insert(a, "VAR".into());
+    }
+    if r.bool() {
+        lines.insert(0, "PROGRAM P".into());
+        lines.push("END_PROGRAM".into());
+    }
+    let nl = if r.chance(1, 5) { "\r\n" } else { "\n" };
+    let mut text = lines.join(nl);
+    if r.chance(5, 6) {
+        text.push_str(nl);
+    }
+    (cfg, text)
 }
 
 // ---------------------------------------------------------------------------------------------
@@ -1686,6 +1945,7 @@ pub fn witnesses() -> Vec<Witness> {
         Witness { name: "web-comment-interior", cfg: base_cfg(), text: "PROGRAM P\n(* first\n      aligned   art\n   *)\nx := 1;\nEND_PROGRAM\n", ranges: &[], ontype: &[] },
         Witness { name: "web-stray-cr", cfg: base_cfg(), text: "a\r\r\nb\n", ranges: &[], ontype: &[] },
         Witness { name: "lexer-context-dependent-token", cfg: base_cfg(), text: "x := D#2024-01 ;\n", ranges: &[], ontype: &[] },
+        Witness { name: "align-assign-op-in-token", cfg: Cfg { spacing: Some("compact".into()), ..base_cfg() }, text: "PROGRAM P\nlonger_name := 1;\na <= > b;\nEND_PROGRAM\n", ranges: &[(2, 0, 2, 3)], ontype: &[(2, 9)] },
         Witness { name: "exotic-space", cfg: base_cfg(), text: "x := 1;\n\u{a0}\n// c\n", ranges: &[], ontype: &[] },
     ]
 }
@@ -2178,11 +2438,18 @@ impl<'a> Prober<'a> {
         let eol = if text.contains("\r\n") { "\r\n" } else { "\n" };
         let mut lines: Vec<String> = text.split('\n').map(|l| l.trim_end_matches('\r').to_string()).collect();
         let mut pos = self.fails(cfg, settings, text, op, what).flatten();
+        // a smaller text must not run into a recorded finding the original is free of
+        let guarded = |t: &str| has_irregular_token(t) || lex(t).iter().any(|k| k.kind == TokenKind::Error);
+        let was_guarded = guarded(text);
         let mut i = 0usize;
         while i < lines.len() && self.budget > 0 {
             let mut cand = lines.clone();
             cand.remove(i);
             let t = cand.join(eol);
+            if !was_guarded && guarded(&t) {
+                i += 1;
+                continue;
+            }
             match self.fails(cfg, settings, &t, op, what) {
                 Some(p) => {
                     lines = cand;
@@ -2205,11 +2472,24 @@ fn run_neighbours(args: &Args, out: &mut Out, sessions: &mut Sessions, web: &(We
     for (i, e) in seeds.iter().enumerate() {
         let base = Cfg::parse_line(e["cfg"].as_str().unwrap_or("")).ok_or("bad cfg line in the neighbour file")?;
         let source = e["source"].as_str().unwrap_or("").to_string();
-        for j in 0..args.cases {
+        // `want` = [op, what]: the entry is a failing input already (an oracle failure of a generated case);
+        // it is run as it is, with the request that failed, and shrunk while that failure persists
+        let want: Option<(String, String)> = match (e["want"][0].as_str(), e["want"][1].as_str()) {
+            (Some(a), Some(b)) => Some((a.to_string(), b.to_string())),
+            _ => None,
+        };
+        let nums = |v: &Value| -> Vec<u32> { v.as_array().map(|a| a.iter().filter_map(|x| x.as_u64()).map(|x| x as u32).collect()).unwrap_or_default() };
+        let req_ranges: Vec<(u32, u32, u32, u32)> = e["requests"]["ranges"].as_array().map(|a| a.iter().map(&nums).filter(|v| v.len() == 4).map(|v| (v[0], v[1], v[2], v[3])).collect()).unwrap_or_default();
+        let req_ontype: Vec<(u32, u32)> = e["requests"]["ontype"].as_array().map(|a| a.iter().map(&nums).filter(|v| v.len() == 2).map(|v| (v[0], v[1])).collect()).unwrap_or_default();
+        for j in 0..(if want.is_some() { 1 } else { args.cases }) {
             let n = 100_000 + (i as u64) * 1_000 + j;
             let mut r = Rng::for_case(args.seed, n);
             let (text, cfg) = if j == 0 { (source.clone(), base.clone()) } else { (neighbour_text(&mut r, &source), neighbour_cfg(&mut r, &base)) };
-            let (ranges, pos) = dense_positions(&mut r, &text, 3);
+            let (mut ranges, mut pos) = dense_positions(&mut r, &text, 3);
+            if j == 0 {
+                ranges.splice(0..0, req_ranges.iter().copied());
+                pos.splice(0..0, req_ontype.iter().copied());
+            }
             out.line(format!("case {n}"));
             out.line("tag neighbour");
             CASE_FAILURES.with(|f| f.borrow_mut().clear());
@@ -2217,10 +2497,16 @@ fn run_neighbours(args: &Args, out: &mut Out, sessions: &mut Sessions, web: &(We
             out.line("end");
             let fails = CASE_FAILURES.with(|f| f.borrow().clone());
             out.add("neighbour-variants", 1);
-            if let Some((op, what)) = fails.first() {
+            let target = match &want {
+                Some(w) => fails.iter().find(|f| *f == w),
+                None => fails.first(),
+            };
+            if let Some((op, what)) = target {
                 out.add("neighbour-variants-failing", 1);
-                if shrinks_left > 0 && what != "panic" {
-                    shrinks_left -= 1;
+                if (want.is_some() || shrinks_left > 0) && what != "panic" {
+                    if want.is_none() {
+                        shrinks_left -= 1;
+                    }
                     let settings = cfg.settings(&mut r);
                     let mut p = Prober { sessions: &mut *sessions, web, doc_no: &mut doc_no, budget: 1500 };
                     let (small, at) = p.shrink(&cfg, &settings, &text, op, what);
@@ -2277,6 +2563,8 @@ pub fn run(args: &Args) -> i32 {
     let web = (web_state, session.token);
     let wit = witnesses();
     let nw = wit.len() as u64;
+    // cases nw+1 ..= nw+glue_cases sweep the glue matrix (3 cases per block of GLUE_SWEEP_LINES pairs)
+    let glue_cases = args.extra_usize("gluecases", 42) as u64;
     let mut doc_no = 0u64;
     let mut code = 0;
     let neighbour = args.extra.get("neighbour").cloned();
@@ -2297,6 +2585,15 @@ pub fn run(args: &Args) -> i32 {
             out.line(format!("tag witness {}", w.name));
             out.line("tag nontrivial");
             run_case(&mut out, &mut sessions, &web, &mut r, &w.cfg, w.text, w.ranges, w.ontype, &mut doc_no)
+        } else if n <= nw + glue_cases {
+            out.line("tag glue-matrix");
+            out.count("text-glue-matrix");
+            let (cfg, text) = gen_glue_matrix(&mut r, n - nw - 1, &mut out);
+            if canon(&text).toks.len() >= 3 && text.contains('\n') {
+                out.line("tag nontrivial");
+            }
+            let (ranges, pos) = dense_positions(&mut r, &text, 3);
+            run_case(&mut out, &mut sessions, &web, &mut r, &cfg, &text, &ranges, &pos, &mut doc_no)
         } else {
             let mut cfg = gen_cfg(&mut r);
             let (text, tags) = gen_text(&mut r);
